@@ -61,7 +61,8 @@ impl FixtureDatabase {
     }
 
     /// Collect all local variable names from a function body.
-    /// Records the line number where each variable is defined for scope checking.
+    /// Records the line number where each variable is FIRST bound for scope checking
+    /// (a later re-binding must not make an earlier use look like a fixture reference).
     #[allow(clippy::only_used_in_recursion)]
     pub(crate) fn collect_local_variables(
         &self,
@@ -79,7 +80,7 @@ impl FixtureDatabase {
                         self.collect_names_from_expr(target, &mut temp_names);
                     }
                     for name in temp_names {
-                        local_vars.insert(name, line);
+                        local_vars.entry(name).or_insert(line);
                     }
                 }
                 Stmt::AnnAssign(ann_assign) => {
@@ -88,7 +89,7 @@ impl FixtureDatabase {
                     let mut temp_names = HashSet::new();
                     self.collect_names_from_expr(&ann_assign.target, &mut temp_names);
                     for name in temp_names {
-                        local_vars.insert(name, line);
+                        local_vars.entry(name).or_insert(line);
                     }
                 }
                 Stmt::AugAssign(aug_assign) => {
@@ -97,7 +98,7 @@ impl FixtureDatabase {
                     let mut temp_names = HashSet::new();
                     self.collect_names_from_expr(&aug_assign.target, &mut temp_names);
                     for name in temp_names {
-                        local_vars.insert(name, line);
+                        local_vars.entry(name).or_insert(line);
                     }
                 }
                 Stmt::For(for_stmt) => {
@@ -106,7 +107,7 @@ impl FixtureDatabase {
                     let mut temp_names = HashSet::new();
                     self.collect_names_from_expr(&for_stmt.target, &mut temp_names);
                     for name in temp_names {
-                        local_vars.insert(name, line);
+                        local_vars.entry(name).or_insert(line);
                     }
                     self.collect_local_variables(&for_stmt.body, line_index, local_vars);
                 }
@@ -116,7 +117,7 @@ impl FixtureDatabase {
                     let mut temp_names = HashSet::new();
                     self.collect_names_from_expr(&for_stmt.target, &mut temp_names);
                     for name in temp_names {
-                        local_vars.insert(name, line);
+                        local_vars.entry(name).or_insert(line);
                     }
                     self.collect_local_variables(&for_stmt.body, line_index, local_vars);
                 }
@@ -135,7 +136,7 @@ impl FixtureDatabase {
                             let mut temp_names = HashSet::new();
                             self.collect_names_from_expr(optional_vars, &mut temp_names);
                             for name in temp_names {
-                                local_vars.insert(name, line);
+                                local_vars.entry(name).or_insert(line);
                             }
                         }
                     }
@@ -149,7 +150,7 @@ impl FixtureDatabase {
                             let mut temp_names = HashSet::new();
                             self.collect_names_from_expr(optional_vars, &mut temp_names);
                             for name in temp_names {
-                                local_vars.insert(name, line);
+                                local_vars.entry(name).or_insert(line);
                             }
                         }
                     }
